@@ -61,6 +61,12 @@ CHECKS["C03"] = {
     "technique": "symbolic execution (CrossHair/z3): self-composition over two environment valuations + differential execution against a frozen reference copy of the library",
 }
 
+CHECKS["C09"] = {
+    "text": "Same engine as C01/C02 on a template with every placement of dds.load (top level of the evaluated function, inside a kept function, in a helper of a kept function) x producer kind (data function, dds.keep call) x producer position (earlier in the same evaluation, earlier evaluation, revert history, never / later): the value a load returns and the reader's result equal the plain twin's (whose load returns the value most recently produced in program order) for all values of the producer's tracked variable over 2-5 step histories on fresh and populated stores; the reader is re-executed iff the signature served at the path changed; read-before-produce and never-produced paths end in a DDSException.",
+    "design_ref": "DESIGN.md 5-C09",
+    "technique": "symbolic execution (CrossHair/z3) of the whole analysis + evaluation on load-placement templates with symbolic producer state, differential against the plain twin",
+}
+
 NOT_APPLICABLE = {}
 
 
